@@ -18,6 +18,7 @@
 2. TLC on the strict forms against the code as pinned: MC_Mmio_pinned.cfg must violate
    ChannelIndependentStrict (bits of 0x1DA outside its slots are one word shared by all channels) and
    MC_Mmio_pinned_wd.cfg must violate NoAbort (TIMERx_CFG := RES | watchdog mode hits an ASSERT);
+   MC_Mmio_pinned_chsel.cfg (the code before the 3-bit channel-select fix) must violate WindowReachable;
    thorough: MC_Mmio_fixed.cfg shows both proposed repairs make the strict forms hold.
 3. Conformance, impl -> spec (mmio_rec -> MmioTrace.tla): on a real Teakra::Teakra, (a) sweep: every
    documented register x walking ones/zeros x both write paths, read back through both paths, window
@@ -43,7 +44,8 @@ def model_checking(ck):
 
 
 def pinned(ck):
-    for cfg, inv, what in (('MC_Mmio_pinned.cfg', 'ChannelIndependentStrict', 'shared raw word of DMA register 0x1DA'),
+    for cfg, inv, what in (('MC_Mmio_pinned_chsel.cfg', 'WindowReachable', '16-bit DMA channel select (before the 3-bit fix)'),
+                           ('MC_Mmio_pinned.cfg', 'ChannelIndependentStrict', 'shared raw word of DMA register 0x1DA'),
                            ('MC_Mmio_pinned_wd.cfg', 'NoAbort', 'ASSERT in Timer::Restart for watchdog modes')):
         r = ck.mc('MC_Mmio', cfg, workers=4, must_hold=False, coverage=False)
         if r.violated != inv:
@@ -91,8 +93,8 @@ def run(ck):
         'side effects that leave the register file are modelled only as far as read-back needs: DMA start = '
         'store + IRQ 15 (transfer: C13), ICU trigger = request bits (delivery: C07), APBP = data/ready/semaphore '
         'words (C14), BTDMP = queue length and flags (C16)',
-        'the recorder never performs a DMA window access while active_channel >= 8 (out-of-range std::array '
-        'index in the code, a C18 matter) and starts DMA only with <= 4096 elements',
+        'the recorder starts DMA only with <= 4096 elements; 0x1BE is written with arbitrary 16-bit values and '
+        'the window is used afterwards (the 3-bit channel-select fix is exercised)',
         'value space: walking bits + boundary-clustered random 16-bit values in traces, value classes in TLC; '
         'not all 65536 values of every register',
         'TLC, the Json/IOUtils/Bitwise community modules and g++ are trusted']
